@@ -16,12 +16,21 @@ func (server *RunningJob) AwaitStop() {
 func SpawnJob(start func(), shutdown func()) RunningJob {
 	stop := make(chan struct{})
 	closed := make(chan struct{})
+	// startReturned is closed once start() has returned. A start() that was
+	// still on its way to acquiring resources (e.g. binding a listener) when
+	// shutdown() ran only releases them when it returns, so the job is not
+	// closed before that.
+	startReturned := make(chan struct{})
 	go func() {
 		<-stop
 		shutdown()
+		<-startReturned
 		close(closed)
 	}()
-	go start()
+	go func() {
+		defer close(startReturned)
+		start()
+	}()
 	return RunningJob{stop: stop, closed: closed}
 }
 
